@@ -196,6 +196,12 @@ func runMergePlan(c *Ctx, i int, rng *rand.Rand, class string, slice int) {
 				o.Names = nil // different field lists: re-encode path
 			}
 			o.Syn, o.Vec = false, slice == sliceVec // >= 1000 vectors: the merged index is a clustered one
+			if slice == sliceVec && vec && l == 0 && (i/len(planClasses)/c.N(4, 3))%4 == 3 {
+				// one input alone contributes several thousand vectors to a field (more than
+				// 4096 and more than 8192 with and without deletions)
+				o.Docs = 9500 + rng.Intn(500)
+				c.R.Inc("leaves_with_9500_or_more_documents_and_vectors", 1)
+			}
 		case "xwide":
 			cl = "xwide"
 			if r := i / len(planClasses) / 3; r%2 == 1 {
@@ -244,6 +250,14 @@ func runMergePlan(c *Ctx, i int, rng *rand.Rand, class string, slice int) {
 			n := []int{1024, 512, 1023, 2048, 1025, 256}[(i/len(planClasses))%6]
 			model.AddBigSynonymDoc(b, fmt.Sprintf("s%d-bigsyn", l), model.ThesPool[0], "big", n)
 			c.R.Inc("leaves_with_a_big_synonym_list", 1)
+		}
+		if slice == sliceThes && class == "different" && l > 0 && (i/len(planClasses))%2 == 0 && hasSynonymDocs(batches[0]) {
+			// the later leaves are the first one under other ids with thinned synonym
+			// definitions: when two builds lay their sections out alike, the first changed
+			// synonym list sits at the same file offset in both inputs, with other content
+			b = model.TwinWithThinnedSynonyms(batches[0], rng, "s0-", fmt.Sprintf("s%d-", l))
+			cl = "twin"
+			c.R.Inc("leaves_twin_with_thinned_synonyms", 1)
 		}
 		batches = append(batches, b)
 		leafDesc = append(leafDesc, fmt.Sprintf("%s(%d docs)", cl, len(b.Docs)))
@@ -704,4 +718,13 @@ func clip(a []uint64) []uint64 {
 		return a[:12]
 	}
 	return a
+}
+
+func hasSynonymDocs(b *model.Batch) bool {
+	for i := range b.Docs {
+		if len(b.Docs[i].Syn) > 0 {
+			return true
+		}
+	}
+	return false
 }
